@@ -379,7 +379,15 @@ func (a Float) M__bool__() (Object, error) {
 }
 
 func (a Float) M__int__() (Object, error) {
-	if a >= IntMin && a <= IntMax {
+	switch {
+	case math.IsNaN(float64(a)):
+		return nil, ExceptionNewf(ValueError, "cannot convert float NaN to integer")
+	case math.IsInf(float64(a), 0):
+		return nil, ExceptionNewf(OverflowError, "cannot convert float infinity to integer")
+	}
+	// NB IntMax isn't representable as a float (it rounds to 2**63
+	// which doesn't fit an Int) so compare with the exact bound
+	if a >= -(1<<63) && a < 1<<63 {
 		return Int(a), nil
 	}
 	frac, exp := math.Frexp(float64(a))              // x = frac << exp; 0.5 <= abs(x) < 1
